@@ -40,6 +40,19 @@ class Run:
         self.deadlock = False
         self.rows = None
         self.shared_objects = False   # some argument / result contained one object twice (see has_shared_object)
+        # structural hashes (ids from the module-level INTERN table, comparable across runs)
+        self.c_args = []
+        self.c_res = []
+        self.c_node = []
+
+
+INTERN: dict = {}
+
+
+def intern(x):
+    if x not in INTERN:
+        INTERN[x] = len(INTERN)
+    return INTERN[x]
 
 
 def has_shared_object(value) -> bool:
@@ -118,6 +131,33 @@ def run_prog(prog, limits: dict, rng: random.Random, root_args=(), complete_prob
         R.entry_handles.append(None)
         R.res_hash.append(None)
         R.call_hash.append(None)
+        R.c_args.append(None)
+        R.c_res.append(None)
+        R.c_node.append(None)
+
+    # ---- structural ("canonical") hashing, insensitive to which Python objects are shared ----------
+    hcanon: dict = {}        # real Handle hash -> structure
+    eval_canon: dict = {}    # real eval hash -> (task index, canonical args id)
+
+    def canon(v):
+        if isinstance(v, Handle):
+            info = v.__handle__
+            if info.hash in hcanon:
+                return hcanon[info.hash]
+            if not info.call_hash:
+                cv = ("init", info.fullname)
+            elif info.key != "":
+                par = hcanon.get(info.call_hash)
+                if par is None and info.fork_parent is not None:
+                    par = canon(info.fork_parent)
+                cv = ("fork", par if par is not None else ("?", info.call_hash), info.key)
+            else:
+                cv = ("call", info.fullname, eval_canon.get(info.call_hash, ("?", info.call_hash)))
+            hcanon[info.hash] = cv
+            return cv
+        if isinstance(v, (list, tuple)):
+            return ("l", tuple(canon(x) for x in v))
+        return v
 
     state = {"collapse": None, "cached": None}
 
@@ -163,8 +203,14 @@ def run_prog(prog, limits: dict, rng: random.Random, root_args=(), complete_prob
         if R.entry_handles[j] is None:
             R.entry_handles[j] = [v.get_hash() for v in iter_nested_value(eval_args) if isinstance(v, Handle)]
             R.first_entry_seq.append(j)
+        for v in iter_nested_value(eval_args):
+            if isinstance(v, Handle):
+                canon(v)                      # the states before forking: parents of the forks
         r = orig_enter(job, eval_args)
         R.entries[j].append(job.args_hash)
+        if job.args is not None:
+            R.c_args[j] = intern(("args", tuple(canon(a) for a in job.args[0])))
+            eval_canon[job.eval_hash] = (R.task_idx[j], R.c_args[j])
         if job.args is not None and any(has_shared_object(a) for a in job.args[0]):
             R.shared_objects = True
         if state["collapse"] is not None:
@@ -199,9 +245,18 @@ def run_prog(prog, limits: dict, rng: random.Random, root_args=(), complete_prob
 
     def _resolve_job_main_thread(job, result):
         j = ids[job.id]
+        replayed = bool(job.call_hash)          # call hash known before resolving: collapsed / replayed
+        kids = [ids[ch.id] for ch in job.child_jobs if ch.call_hash and ch.id in ids]
         r = orig_resolve(job, result)
         R.call_hash[j] = job.call_hash
         R.res_hash[j] = s.type_registry.get_hash(result)
+        R.c_res[j] = intern(("val", canon(result)))
+        if replayed:
+            src_ = [k for k in range(len(R.jobs)) if k != j and R.call_hash[k] == job.call_hash and R.c_node[k] is not None]
+            R.c_node[j] = R.c_node[src_[0]] if src_ else intern(("node?", job.call_hash))
+        else:
+            R.c_node[j] = intern(("node", R.task_idx[j], R.c_args[j], R.c_res[j],
+                                  tuple(sorted(R.c_node[k] for k in kids))))
         if has_shared_object(result):
             R.shared_objects = True
         R.events.append(("resolve", j))
@@ -256,6 +311,13 @@ def graph_signature(R: Run):
             tuple(c[0] for c in R.rows["call_nodes"]),
             tuple(R.rows["arguments"]),
             tuple((c[0], c[3], c[4]) for c in R.rows["call_nodes"]))
+
+
+def structural_signature(R: Run):
+    """The same comparison on structural hashes computed by this module (ints, lists and Handle states
+    hashed by structure, call nodes from task / arguments / result / sorted children): insensitive to
+    which Python objects happen to be shared inside a value."""
+    return (R.c_res[0] if R.ok else None, frozenset(x for x in R.c_node if x is not None))
 
 
 def arrival_signature(R: Run):
